@@ -13,7 +13,7 @@ META = dict(
         "from the scanner grammar, every allowed HTML tag, every uniquified extension tag, entities (ill-formed, out of range, "
         "surrogate, huge), template syntax, control/non-BMP characters, cleaner-trigger attributes. Oracle: parse_string returns an "
         "Article, raises nothing, stays under the deterministic call budget 4e5+4e3n+40n^2; growth law work(u*2n) <= 8*work(u*n)+5e4 "
-        "for units u of <= 6 lexemes, n in {25,50,100} (a CPU-limit hit at n >= 100 whose smaller sizes grew <= 16x per doubling is slow polynomial time, which the statement allows: counted, not reported). Failures are bucketed by (exception type, innermost repo frame) and shrunk by "
+        "for units u of <= 6 lexemes, n in {25,50} (thorough: {25,50,100}) (a CPU-limit hit at n >= 100 whose smaller sizes grew <= 16x per doubling is slow polynomial time, which the statement allows: counted, not reported). Failures are bucketed by (exception type, innermost repo frame) and shrunk by "
         "ddmin over the lexeme list. Non-trivial: >= 2 markup lexeme classes and a non-Text node below the article; distinct = text+lang+db."
     ),
     assumptions=[
@@ -64,7 +64,8 @@ def growth(ctx, case):
     unit = "".join(case["parts"])
     works = {}
     cpu = {}
-    for n in (25, 50, 100, 200):
+    sizes = (25, 50, 100, 200) if ctx.thorough else (25, 50, 100)  # (the largest size costs seconds per unit on slow shapes)
+    for n in sizes:
         c = dict(parts=[unit * n], lang=case["lang"], db=case.get("db"))
         t0 = time.process_time()
         tree, w, fail = _tree.parse(c)
@@ -84,6 +85,8 @@ def growth(ctx, case):
             return works
         works[n] = w
     for n in (25, 50, 100):
+        if 2 * n not in works:
+            continue
         if works[2 * n] > 8 * works[n] + 50000:
             ctx.fail("growth-law", dict(slim(case), ladder=True), "work %r: doubling %d -> %d repetitions multiplies work by %.1f" % (
                 works, n, 2 * n, works[2 * n] / max(1, works[n])))
@@ -92,12 +95,20 @@ def growth(ctx, case):
 
 
 def run_shard(ctx):
-    max_lex = 400 if ctx.thorough else 60
+    import time
 
-    @ctx.settings(ctx.n(16000, 64000))
+    max_lex = 400 if ctx.thorough else 60
+    t_start, t_budget, skipped = time.time(), (900.0 if ctx.thorough else 60.0), [0]
+
+    @ctx.settings(ctx.n(12000, 64000))
     @given(_tree.soup_case(max_lex))
     def t(case):
         if _tree.exhausted():
+            return
+        if time.time() - t_start > t_budget:
+            # the search (steered towards expensive inputs by target()) has used its share of the run: the remaining draws
+            # are skipped and counted - a time budget that is hit means "explored less", never a violation
+            skipped[0] += 1
             return
         ctx.announce(slim(case))
         tree, work = evaluate(ctx, case)
@@ -119,10 +130,13 @@ def run_shard(ctx):
             target(work / (len(text) + 50.0))
 
     ctx.run_given(t)
+    if skipped[0]:
+        ctx.labels["draws-skipped-after-the-time-budget"] = skipped[0]
+        ctx.inconclusive.append("shard %d: %d draws skipped after %.0f s" % (ctx.shard, skipped[0], t_budget))
     ctx.fuzz_campaign("", (0, 160000))
 
     # growth law on short units
-    @ctx.settings(ctx.n(480, 8000))
+    @ctx.settings(ctx.n(320, 8000))
     @given(S.soup(6), st.sampled_from(_tree.LANGS), st.one_of(st.none(), _tree.template_universe()))
     def g(lex, lang, db):
         case = dict(parts=[l for _, l in lex], lang=lang, db=db, ladder=True)
